@@ -120,7 +120,7 @@ fn convert<T: Tier>(rep: &mut Report) {
     // ... and (4^j - 1, 2^(j+1), 0, 0)/(4^j + 1): within 2^-j of +-1 in one component, 2^(1-j) in another, down to rotations
     // (or deviations from a half turn) of 1e-9 - the inputs on which "nearly the identity" or "w is nearly 0" short cuts act
     let mut tuples: Vec<([i64; 4], i64)> = [3i64, 10, 50].iter().map(|&k| ([1, 2 * k, 2 * k * k, 0], 2 * k * k + 1)).collect();
-    for j in if T::EXACT { vec![6u32, 10, 14] } else { vec![6u32, 12, 20, 28] } {
+    for j in if T::EXACT { vec![6u32, 10, 14] } else { (2u32..=28).step_by(2).collect() } {
         tuples.push(([(1i64 << (2 * j)) - 1, 1i64 << (j + 1), 0, 0], (1i64 << (2 * j)) + 1));
     }
     for (t, d) in tuples {
